@@ -90,6 +90,7 @@ class RI:
         self.max_runs = max_runs
         self.vla_cap = vla_cap
         self.on_stmt = on_stmt
+        self.preemptive = None
         self.runs = 0
 
     # ---- decisions
@@ -262,13 +263,21 @@ class RI:
                 ret = None
             except ReturnEx as r:
                 ret = r.v
-            if self.checked and decl.name.flavor == Flavor.DEFEAT and decl.body.preemptive:
+            if self.checked and decl.name.flavor == Flavor.DEFEAT and self.is_preemptive(decl):
                 if self.choice('retprot') == 1:
                     self.fault('nonlocal_preempt')
             return ret
         finally:
             self.scopes = saved
             self.depth -= 1
+
+    def is_preemptive(self, decl):
+        """README: a defeat function which contains a preempt block anywhere in it (even if unreachable).
+        Computed here from the parse tree (self.preemptive, filled by oracle_cases), not taken from the
+        compiler's own `preemptive` attribute."""
+        if self.preemptive is None:
+            return decl.body.preemptive
+        return (decl.name, tuple(decl.param_types)) in self.preemptive
 
     def defeat(self):
         if self.mode == 'virtual':
@@ -300,7 +309,10 @@ class RI:
                 if key is not None:
                     if key in seen:
                         raise EndEx('diverge')
+                    if key[1:] in seen:
+                        raise EndEx('diverge-output')
                     seen.add(key)
+                    seen.add(key[1:])
                 try:
                     self.block(b.body)
                 except BreakEx:
@@ -339,7 +351,7 @@ class RI:
     def state_key(self):
         """hashable snapshot of all variable state + number of events: exact repetition at a loop head
         with no new event means the loop runs forever (mirrors the VM's cycle detection)"""
-        items = [len(self.events), len(self.trace)]
+        items = [len(self.events), len(self.trace)]   # items[0] is dropped for the periodic-output test
         # only sound if no decision was taken since the previous visit: use the trace length as part of the key
         # but a growing trace never repeats; so divergence is only recognised for decision-free iterations.
         def h(v):
@@ -617,14 +629,40 @@ def ri_args(compiled, inputs, W):
 def oracle_cases(compiled, inputs, W, checked=True, assumptions=(), **kw):
     """run RI; returns (cases, inconclusive, ri) with cases = [(conds, events, kind)]"""
     ri = RI(compiled.ast, compiled.env, W, ri_args(compiled, inputs, W), checked=checked, **kw)
+    ri.preemptive = preemptive_functions(compiled.src)
     res = ri.run_all(assumptions)
     cases = []
     inconc = []
     for kind, conds, ev in res:
-        if kind in ('done', 'diverge', 'halt'):
+        if kind in ('done', 'diverge', 'diverge-output', 'halt'):
             cases.append((conds, ev, kind))
         elif kind == 'undefined':
             cases.append((conds, ev, 'undefined'))
         else:
             inconc.append('RI path %s' % kind)
     return cases, inconc, ri
+
+
+def preemptive_functions(src):
+    """(name, param types) of every function whose *parsed* body contains a preempt block anywhere,
+    reachable or not — an independent walk over the untyped parse tree"""
+    import dataclasses
+    from hidc.parser import parse
+    from hidc.lexer import SourceCode
+    tree = parse(SourceCode.from_string(src))
+
+    def has_preempt(node, depth=0):
+        if isinstance(node, A.PreemptBlock):
+            return True
+        if isinstance(node, (list, tuple)):
+            return any(has_preempt(x, depth + 1) for x in node)
+        if dataclasses.is_dataclass(node) and not isinstance(node, type):
+            if type(node).__module__.startswith('hidc.lexer'):
+                return False
+            return any(has_preempt(getattr(node, f.name), depth + 1) for f in dataclasses.fields(node))
+        return False
+    out = set()
+    for f in tree.func_decls:
+        if has_preempt(f.body):
+            out.add((f.name, tuple(p.type for p in f.params)))
+    return out
